@@ -68,6 +68,10 @@ def run(prog: Program, rep: Report, tier: str) -> None:
     rep.rule("R10.4", "writer/reader agreement: the record create_schedule emits has days/start/end at the offsets and widths the reader uses, the same byte order, mktime<->localtime (both local), '%H:%M' on both sides, the non-recurring constant the reader tests against, and an empty day collection is written as that constant (not refused)", 7)
     from ..api_model import duration_premise
     duration_premise(prog, rep)
+    rep.rule("R10.6", "the day set of a listed schedule stays what was decoded: pretty_next_run, which SwitcherSchedule.__post_init__ hands its own `days` set, does not change that collection in place "
+                      "(shares its sweep with C13 R13.7)", 0, structural=True)
+    from .c13 import argument_mutation_rule
+    argument_mutation_rule(prog, rep, f"{TOOLS}:pretty_next_run", 1, "R10.6")
     rep.trusted += [
         "textwrap.wrap on whitespace-free text yields consecutive chunks of the given width ('' -> [])",
         "time.mktime / time.localtime are inverse on existing local times (libc; the zone/DST behaviour itself is not decided, see C11)",
